@@ -35,37 +35,39 @@ def lookupRel (pinned : List (String × Expr)) (f : String) (dflt : Expr) : Expr
   | none => dflt
 
 /-- `relationsHold` with every buffer length / list count looked up in the pinned table -/
-def relationsHoldPinned (C : Codecs) (pinned : List (String × Expr)) (env : Env) : (pad : Nat) → List UStmt → Bool
+def relationsHoldPinned (C : Codecs) (pinned : List (String × Expr)) (env : Env) (plen : Nat) : (pad : Nat) → List UStmt → Bool
   | _, [] => true
   | pad, .readBytes _ f e :: r =>
     (match env.get f, lookupRel pinned f e with
       | some (.b bs), .pad => bs.length == pad
       | some (.b bs), e' => evalEnv env e' == some bs.length
-      | _, _ => false) && relationsHoldPinned C pinned env pad r
-  | pad, .readArr _ f n :: r => (match env.get f with | some (.b bs) => bs.length == n | _ => false) && relationsHoldPinned C pinned env pad r
-  | pad, .readSub _ f typ _ _ _ _ :: r => (match env.get f with | some (.t v) => tupOk C typ v | _ => false) && relationsHoldPinned C pinned env pad r
+      | _, _ => false) && relationsHoldPinned C pinned env plen pad r
+  | pad, .readArr _ f n :: r => (match env.get f with | some (.b bs) => bs.length == n | _ => false) && relationsHoldPinned C pinned env plen pad r
+  | pad, .readSub _ f typ _ _ _ _ :: r => (match env.get f with | some (.t v) => tupOk C typ v | _ => false) && relationsHoldPinned C pinned env plen pad r
   | pad, .forCountInt _ _ _ f g :: r =>
     (match env.get f with
       | some (.ns xs) => evalEnv env (lookupRel pinned f (.fint g)) == some xs.length
-      | _ => false) && relationsHoldPinned C pinned env pad r
+      | _ => false) && relationsHoldPinned C pinned env plen pad r
   | pad, .forCountSub _ f g typ _ :: r =>
     (match env.get f with
       | some (.ts vs) => evalEnv env (lookupRel pinned f (.fint g)) == some vs.length && vs.all (tupOk C typ)
-      | _ => false) && relationsHoldPinned C pinned env pad r
+      | _ => false) && relationsHoldPinned C pinned env plen pad r
   | pad, .whileFitsSub _ f typ _ :: r =>
-    (match env.get f with | some (.ts vs) => vs.all (tupOk C typ) | _ => false) && relationsHoldPinned C pinned env pad r
+    (match env.get f with | some (.ts vs) => vs.all (tupOk C typ) | _ => false) && relationsHoldPinned C pinned env plen pad r
   | pad, .cstrUnicode f :: r =>
-    (match env.get f with | some (.b bs) => bs.length % 2 == 0 && (cstrUnicode (bs ++ [0, 0])).1 == bs | _ => false) && relationsHoldPinned C pinned env pad r
-  | _, .setPad e :: r => (match evalEnv env e with | some n => relationsHoldPinned C pinned env n r | none => false)
-  | pad, .padRoundUp :: r => relationsHoldPinned C pinned env (if pad % 2 = 1 then pad + 1 else pad) r
-  | pad, .ifWordCount _ body :: r => relationsHoldPinned C pinned env pad body && relationsHoldPinned C pinned env pad r
-  | pad, _ :: r => relationsHoldPinned C pinned env pad r
+    (match env.get f with | some (.b bs) => bs.length % 2 == 0 && (cstrUnicode (bs ++ [0, 0])).1 == bs | _ => false) && relationsHoldPinned C pinned env plen pad r
+  | _, .setPad e :: r => (match evalEnv env e with | some n => relationsHoldPinned C pinned env plen n r | none => false)
+  | pad, .padRoundUp :: r => relationsHoldPinned C pinned env plen (if pad % 2 = 1 then pad + 1 else pad) r
+  | pad, .padIfPOdd :: r => relationsHoldPinned C pinned env plen (if (plen + 3) % 2 = 1 then 1 else pad) r
+  | pad, .ifWordCount _ body :: r => relationsHoldPinned C pinned env plen pad body && relationsHoldPinned C pinned env plen pad r
+  | pad, _ :: r => relationsHoldPinned C pinned env plen pad r
 
 /-- C04 "internally consistent", lengths and counts per the pinned table -/
 def consistentPinned (C : Codecs) (c : Cmd) (env : Env) : Bool :=
+  andxOk c.isAndX env &&
   match runM C c env with
   | .ok s =>
-    intsFit s.env c.marshal && relationsHoldPinned C (pinnedFor c.name) s.env 0 c.unmarshal &&
+    intsFit s.env c.marshal && relationsHoldPinned C (pinnedFor c.name) s.env s.P.length 0 c.unmarshal &&
     s.P.length % 2 == 0 && wordCountOf c.isAndX s.P ≤ 255 && s.D.length ≤ 65535 &&
     (s.P.length > 0 || s.D.length > 0 || c.fields.isEmpty) && s.head.isEmpty
   | _ => false
